@@ -307,6 +307,7 @@ pub fn enumerate_with(ctx: &mut Ctx, rec: &Recorded, o: &CrashOpts, r: &mut Rng,
                     }
                 }
                 ctx.count(&format!("win:{win}"));
+                ctx.count(&format!("crash_in:{}", win.split('|').next().unwrap_or("")));
                 if k < m && rec.reopen_with_unflushed.get(c.wrapping_sub(1)).copied().unwrap_or(false) && win.contains("|start>") {
                     ctx.count("crash_first_op_after_reopen_with_unflushed");
                 }
